@@ -674,6 +674,10 @@ class SStr:
         return z3.And(*conj) if len(conj) > 1 else conj[0]
 
     def _eq_atoms(self, o):
+        if o.concrete() and not self.concrete():
+            return _eq_atoms_vs_text(self, o.plain())
+        if self.concrete() and not o.concrete():
+            return _eq_atoms_vs_text(o, self.plain())
         if len(self.cs) != len(o.cs):
             raise EngineError("equality between differently shaped strings with rendered symbolic values")
         conj = []
@@ -753,23 +757,21 @@ class SStr:
     def _lstrip_n(self, chars=None):
         s = WS if chars is None else frozenset(ord(c) for c in chars)
         n = 0
-        while n < len(self.cs) and char_in(self.cs[n], s):
+        while n < len(self.cs) and not isinstance(self.cs[n], Atom) and char_in(self.cs[n], s):
             n += 1
         return n
 
     def _rstrip_n(self, chars=None):
         s = WS if chars is None else frozenset(ord(c) for c in chars)
         n = len(self.cs)
-        while n > 0 and char_in(self.cs[n - 1], s):
+        while n > 0 and not isinstance(self.cs[n - 1], Atom) and char_in(self.cs[n - 1], s):
             n -= 1
         return n
 
     def lstrip(self, chars=None):
-        self._noatom("lstrip")
         return SStr.mk(self.cs[self._lstrip_n(chars):])
 
     def rstrip(self, chars=None):
-        self._noatom("rstrip")
         return SStr.mk(self.cs[:self._rstrip_n(chars)])
 
     def strip(self, chars=None):
@@ -915,6 +917,67 @@ class SStr:
 
     def count(self, sub):
         raise EngineError("str.count on a symbolic string")
+
+
+_ATOM_CHARS = {"ipv4": "0123456789.", "ipv6": "0123456789abcdef:", "dec": "0123456789"}
+
+
+def _eq_atoms_vs_text(s, text):
+    """equality of a string containing rendered symbolic values with concrete text: the text must consist of the same
+    literal pieces with, at each rendered value, the canonical rendering of some value v (then value == v is required)"""
+    import ipaddress
+    conj = []
+    pos = 0
+    cs = s.cs
+    i = 0
+    n = len(cs)
+    while i < n:
+        c = cs[i]
+        if isinstance(c, Atom):
+            if c.kind not in _ATOM_CHARS:
+                raise EngineError("equality with an opaque rendered value")
+            allowed = _ATOM_CHARS[c.kind]
+            j = pos
+            while j < len(text) and text[j] in allowed:
+                j += 1
+            nxt = cs[i + 1] if i + 1 < n else None
+            if nxt is not None and not isinstance(nxt, (int, Atom)) and EX is not None and EX.running and \
+                    not EX.is_sat(in_set_expr(nxt, frozenset(ord(ch) for ch in allowed))):
+                nxt = None      # the following symbolic character provably cannot continue the rendering on this path
+            if isinstance(nxt, Atom) or (isinstance(nxt, int) and chr(nxt) in allowed) or (nxt is not None and not isinstance(nxt, int)):
+                raise EngineError("ambiguous alignment of a rendered symbolic value with concrete text: %r vs %r" % (s, text))
+            piece = text[pos:j]
+            try:
+                if c.kind == "ipv4":
+                    v = ipaddress.IPv4Address(piece)
+                    ok = str(v) == piece
+                    v = int(v)
+                elif c.kind == "ipv6":
+                    v = ipaddress.IPv6Address(piece)
+                    ok = str(v) == piece
+                    v = int(v)
+                else:
+                    v = int(piece)
+                    ok = str(v) == piece
+            except ValueError:
+                return _FALSE
+            if not ok:
+                return _FALSE
+            conj.append(c.e == z3.BitVecVal(v, c.e.size()))
+            pos = j
+        else:
+            if pos >= len(text):
+                return _FALSE
+            if isinstance(c, int):
+                if ord(text[pos]) != c:
+                    return _FALSE
+            else:
+                conj.append(c == _BVCONST[ord(text[pos])] if ord(text[pos]) < 256 else _FALSE)
+            pos += 1
+        i += 1
+    if pos != len(text):
+        return _FALSE
+    return z3.And(*conj) if conj else _TRUE
 
 
 def concretize_slice(sl):
